@@ -60,6 +60,41 @@ async def amain(spec: dict) -> dict:
         except Exception as e:  # noqa
             res['signal_error'] = f'{type(e).__name__}: {e}'
     st = asyncio.ensure_future(send()) if sig else None
+    ham = spec.get('hammer')
+    yielded = [False]
+
+    async def hammer() -> None:
+        # repeated terminate / kill requests from another task for as long as awaiting the handle has not yielded -- the caller's only way
+        # to know that the process is gone -- : the first one `at` s after the start, or once the child has created the file `flag`; then
+        # one more (cycling through `kinds`) every `every` s (0: at every iteration of the event loop) until the await has yielded.
+        # Stops at the first request that raises (a pid that is gone is never signalled twice).
+        if ham.get('flag'):
+            t_end = time.time() + spec.get('timeout', 20)
+            while not os.path.exists(ham['flag']) and not yielded[0] and time.time() < t_end:
+                await asyncio.sleep(0.005)
+            res['hammer_flag_seen'] = os.path.exists(ham['flag'])
+        else:
+            await asyncio.sleep(ham.get('at', 0.0))
+        res['hammer_started_after_s'] = round(time.time() - t0, 2)
+        n = n_gone = 0
+        res['hammer_requests'] = res['hammer_requests_after_reaped'] = 0
+        kinds = ham['kinds']
+        while not yielded[0]:
+            kind = kinds[n % len(kinds)]
+            popen = getattr(running.process, '_popen', None)
+            gone = getattr(popen, 'returncode', None) is not None      # already reaped (looked up without polling)
+            try:
+                getattr(running, kind)()
+            except BaseException as e:  # noqa
+                res['hammer_error'] = {'request': kind, 'nth': n + 1, 'error': f'{type(e).__name__}: {e}', 'reaped_exit_code_seen_before': getattr(popen, 'returncode', None),
+                                       'after_s': round(time.time() - t0, 2)}
+                break
+            n += 1
+            n_gone += gone
+            res['hammer_requests'] = n
+            res['hammer_requests_after_reaped'] = n_gone
+            await asyncio.sleep(ham.get('every', 0))
+    ht = asyncio.ensure_future(hammer()) if ham else None
     awaiters: list = []
     stop_spawning = [False]
 
@@ -68,9 +103,10 @@ async def amain(spec: dict) -> dict:
 
     async def await_and_look() -> Any:
         ex = await running
+        yielded[0] = True
         # the instant at which awaiting the handle has yielded (no suspension point in between): which tasks other than the
         # harness's own are still running, and how many of the child's log records have been handled by now
-        mine = {asyncio.current_task(), st, sp_task, *awaiters}
+        mine = {asyncio.current_task(), st, ht, sp_task, *awaiters}
         left = [t for t in asyncio.all_tasks() - tasks_before if t not in mine and not t.done()]
         res['tasks_left_at_yield'] = sorted(_task_name(t) for t in left)
         if handler is not None:
@@ -113,6 +149,12 @@ async def amain(spec: dict) -> dict:
             t.cancel()
     if st is not None:
         st.cancel()
+    if ht is not None:
+        yielded[0] = True
+        try:
+            await asyncio.wait_for(ht, timeout=5)
+        except BaseException as e:  # noqa
+            res['hammer_task_error'] = f'{type(e).__name__}: {e}'
     await asyncio.sleep(0.05)
     res['pending_tasks'] = len([t for t in asyncio.all_tasks() if t is not asyncio.current_task() and not t.done()])
     res['extra_threads'] = max(0, threading.active_count() - threads_before - 1 - len([t for t in threading.enumerate() if t.name.startswith('asyncio_')]))
